@@ -28,6 +28,9 @@ Invariants (names are the mechanism keys reported by the C16 check):
   I8  control leaves a block only at its end: no real jump and no instruction
       that never falls through before the last position (except the documented
       3.12 SEND surgery: JUMP_BACKWARD_NO_INTERRUPT + CLEANUP_THROW)
+  I9  instruction-level reachability recomputed from op.next / real jump targets
+      only (handler targets not followed): every instruction reachable from
+      instruction 0 is in a block of `order` (documented 3.12 removals excepted)
   J   (reference, native bytecode version only) the resolved target of every
       real jump instruction is the instruction CPython's own `dis` decodes as
       the jump target of that instruction
@@ -361,6 +364,33 @@ def check_one(oc, rep: Report, presplit=None):
     what = "jump" if type(a).does_jump() else "non-falling-through instruction"
     rep.v(f"I8 {what} in the middle of a block", oc,
           {"instr": _desc(a), "followed_by": _desc(nxt), "block": [_desc(o) for o in b.code][:12]})
+
+  # ---- I9  instruction-level reachability, recomputed from the instructions alone
+  # (op.next unless no_next, op.target of real jumps; SETUP_* handler targets are NOT followed, so
+  # this is a subset of what pytype may order): everything reachable that way from instruction 0 must
+  # be in a block of `order`.  Independent of Block.outgoing: a dropped edge that silently loses code
+  # is visible here even though the remaining graph is self-consistent.
+  rep.evals["I9"] += 1
+  if stream and not cyc:
+    seen9 = set()
+    st9 = [stream[0]]
+    while st9:
+      op = st9.pop()
+      if id(op) in seen9:
+        continue
+      seen9.add(id(op))
+      cls = type(op)
+      if not cls.no_next() and op.next is not None:
+        st9.append(op.next)
+      if cls.does_jump() and op.target is not None:
+        st9.append(op.target)
+    not_in_order = {id(op) for op in stream if id(op) not in where}
+    lost = [op for op in stream if id(op) in seen9 and id(op) in not_in_order
+            and _allowed_removed(op, version, not_in_order) is None]
+    if lost:
+      rep.v("I9 instruction reachable from the entry (over next/jump targets) is in no block of order", oc,
+            {"instr": _desc(lost[0]), "count": len(lost), "prev": _desc(lost[0].prev),
+             "first_lost": [_desc(o) for o in lost[:6]]})
 
   # ---- I5  entry and predecessor-before
   rep.evals["I5"] += 1
